@@ -156,14 +156,20 @@ theorem braceExpr_int_limit (src : Str) (h : src.length ≤ 4300) : (Brace.match
 
 def isValueError : Except BraceErr SVS → Bool | .error .valueError => true | _ => false
 def isOverflowError : Except BraceErr SVS → Bool | .error .overflowError => true | _ => false
+def isInfiniteFloat : Except BraceErr SVS → Bool | .error .infiniteFloat => true | _ => false
 
 set_option maxRecDepth 100000 in
 /-- the real constructor does raise on long numbers (both observed on the real code, see NOTES.md):
     4301 digits - `ValueError` (CPython's limit on `int(str)`) -/
 theorem braceExpr_valueError_witness : isValueError (braceExpr (List.replicate 4301 '1')) = true := by
   decide +kernel
-/-- 309 digits and a point - `float()` gives `inf`, and `str(self.string)` raises `OverflowError` -/
-theorem braceExpr_overflow_witness : isOverflowError (braceExpr (List.replicate 309 '9' ++ ['.'])) = true := by
+/-- 309 digits and a point - `float()` gives `inf`; `str(self.string)` used to raise `OverflowError` there (a defect this model
+    exhibited; repaired in /repo: `format_float` now shows `inf`), so today the outcome is a string holding an infinity -/
+theorem braceExpr_infinite_witness : isInfiniteFloat (braceExpr (List.replicate 309 '9' ++ ['.'])) = true := by
+  decide +kernel
+set_option maxRecDepth 100000 in
+/-- 309 digits and `1/9` - a `Fraction` whose denominator is not shown as a fraction goes through `float()`, which raises `OverflowError` -/
+theorem braceExpr_overflow_witness : isOverflowError (braceExpr (List.replicate 309 '9' ++ " 1/9".toList)) = true := by
   decide +kernel
 
 /-- `1/0` is not read as a fraction: three parts, none of them a `Fraction` -/
